@@ -27,6 +27,8 @@ Dispatch(e) == LET a == e.a IN
     \/ e.op = "AssignScalar" /\ AssignScalar(a.x, a.n, a.st)
     \/ e.op = "Assign"       /\ Assign(a.x, a.y)
     \/ e.op = "CtorLv"       /\ CtorLv(a.x, a.y)
+    \/ e.op = "AssignMove"   /\ AssignMove(a.x, a.y)
+    \/ e.op = "Swap"         /\ Swap(a.x, a.y)
     \/ e.op = "FromStd"      /\ FromStd(a.x)
     \/ e.op = "ToStd"        /\ ToStd(a.x)
     \/ e.op = "Bin"          /\ Bin(a.o, a.x, a.y)
